@@ -5,22 +5,47 @@ UNITS = {'args': dict(wrap='wrap.cc', shim=True, new_block=64, cxxflags=['-DVERI
          'split128': dict(wrap='wrap.cc', shim=True, new_block=128, cxxflags=['-DVERIF_UMAP_CAP=6'], ir2c_flags=['--ptrdiff', '--flat-unions'])}
 UNITS['cls'] = dict(wrap='wrap.cc', shim=True, new_block=320, cxxflags=['-DVERIF_UMAP_CAP=4', '-DTOKW=6'], ir2c_flags=['--ptrdiff', '--flat-unions'], gen_defs=['VERIF_NEW_ZERO'])
 FAST = ['--max-field-sensitivity-array-size', '512']
-BOUNDS = ''
-STUBS = []
-OUTSIDE = []
-ASSUMPTIONS = []
+BOUNDS = ('parse_int<RetT>: all 8 integer types, format selector 0..4, text of 0..3 NUL-free bytes, strtoull result any 64-bit value and any end '
+          'pointer; parse_float<float|double>: text 0..3 bytes, strtod result any bit pattern; split_args: every input of length 0..2 (all byte '
+          'values but NUL) + the two concrete inputs \'\' and ""; token classification: one token of <= 2 symbolic bytes, "--" + 1..3 symbolic '
+          'bytes, "x" + 2 symbolic bytes, the concrete flag groups -ab / -aa, and lists (p, <=2 symbolic bytes), (p, --?), (p, p, ?), queried '
+          'with every positional index and symbolic option names of 0..3 bytes; typed getters: 14 getter forms on one such token; '
+          'assert_none_unused: all subsets of getters on three fixed command lines (one given as a single string)')
+STUBS = ['strtoull (as called by Arguments::parse_int; redirected to verif_strtoull in wrap.cc): CONTRACT stub - returns an arbitrary 64-bit value '
+         'and an arbitrary end pointer in [text, text+strlen(text)]; nothing consumed => returns 0. The harness checks that it receives the '
+         'argument text and the base of the requested format',
+         'strtod (parse_float; redirected to verif_strtod): CONTRACT stub - arbitrary double (any bit pattern), arbitrary end pointer; nothing '
+         'consumed => 0.0',
+         'vasprintf (string_printf in error messages of positional getters and assert_none_unused): fixed text "msg"',
+         'std::unordered_map: engine/shim/unordered_map (fixed capacity 4 resp. 6; iteration in insertion order). operator[] was added to '
+         'the shim for this property. The real build used for translation validation / replay uses libstdc++\'s unordered_map']
+OUTSIDE = ['numeral / floating literal TEXT -> value (that is strtoull / strtod): e.g. what strtoull returns on overflow. Consequence worth '
+           'knowing: parse_int does not look at errno, so "99999999999999999999" (strtoull saturates to 2^64-1) is accepted as -1 by the signed '
+           'getters and as 2^64-1 by uint64; the property statement only speaks about magnitudes below 2^63',
+           'tokens containing NUL bytes (impossible from argv; Arguments(vector<string>) accepts them: the flag-group loop and the numeric '
+           'getters stop at the first NUL)',
+           'single-value getters on an option that was given more than once: the property does not say what they do (see NOTES.md, observation)',
+           'token lists with two or more tokens that can both become named options with symbolic names (e.g. "--a" "--?"), symbolic flag groups of '
+           'two or more letters ("-??" as 3 symbolic bytes), and split_args inputs longer than 2 bytes: measured out of reach (solver out of '
+           'memory at 8-14 GB / no verdict in 10-15 min), see NOTES.md',
+           'Arguments(argv, n) constructor (same parse() behind a trivial loop); get_multi<double>']
+ASSUMPTIONS = ['units cls: operator-new blocks are zero-filled in the model (gen_defs VERIF_NEW_ZERO, needed for CBMC constant folding): behaviour '
+               'that depends on reading UNINITIALISED heap memory is not explored. The same harnesses run natively against the real ASan build '
+               '(translation validation) on 60-300 pseudo-random inputs per query',
+               'cbmc --max-field-sensitivity-array-size 512 for the cls unit',
+               'harness reference models avoid `&array_of_struct[symbolic].member` pointers (CBMC 6.11 evaluates them wrongly, see NOTES.md)']
 TNAMES = ['u8', 'u16', 'u32', 'u64', 'i8', 'i16', 'i32', 'i64']
 
 def queries(tier):
     qs = []
     for t, nm in enumerate(TNAMES):
         for L in ([0, 2] if tier == 'quick' else [0, 1, 2, 3]):
-            qs.append(dict(name='int_%s_len%d' % (nm, L), unit='args', harness='h_int.c', defs={'TYPE': t, 'LEN': L}, unwind=40, timeout=300, mem_gb=4,
+            qs.append(dict(name='int_%s_len%d' % (nm, L), unit='args', harness='h_int.c', defs={'TYPE': t, 'LEN': L}, unwind=40, timeout=300, mem_gb=3,
                            tv_runs=100, desc='parse_int<%s> on a %d-byte text: format, bytes, strtoull value (full 64 bit) and end pointer symbolic' % (nm, L),
                            bounds='text length %d' % L))
     for d in (0, 1):
         for L in ([0, 2] if tier == 'quick' else [0, 1, 2, 3]):
-            qs.append(dict(name='float_%s_len%d' % ('f64' if d else 'f32', L), unit='args', harness='h_float.c', defs={'IS_DOUBLE': d, 'LEN': L}, unwind=40, timeout=300, mem_gb=4,
+            qs.append(dict(name='float_%s_len%d' % ('f64' if d else 'f32', L), unit='args', harness='h_float.c', defs={'IS_DOUBLE': d, 'LEN': L}, unwind=40, timeout=300, mem_gb=3,
                            tv_runs=100, desc='parse_float<%s> on a %d-byte text: bytes, strtod value (all bit patterns) and end pointer symbolic' % ('double' if d else 'float', L),
                            bounds='text length %d' % L))
     for L in ([0, 1] if tier == 'quick' else [0, 1, 2]):
@@ -29,7 +54,7 @@ def queries(tier):
     # cheap concrete cells for the empty quoted argument ('' and ""): everything folds, sub-second; the symbolic LEN=2 query
     # above (thorough tier, minutes) is the real check, these keep the defect visible in the quick tier
     for q, nm in ((39, 'single'), (34, 'double')):
-        qs.append(dict(name='split_empty_%s_quotes' % nm, unit='split64', harness='h_split.c', defs={'LEN': 2, 'QUOTES': q}, unwind=5, timeout=600, mem_gb=6,
+        qs.append(dict(name='split_empty_%s_quotes' % nm, unit='split64', harness='h_split.c', defs={'LEN': 2, 'QUOTES': q}, unwind=5, timeout=600, mem_gb=3,
                        tv_runs=2, desc='split_args on the concrete input of two %s quote characters vs reference tokenizer' % nm, bounds='one concrete input'))
     # token kinds: (kind, length); see h_classify.c
     S0, S1, S2 = (0, 0), (0, 1), (0, 2)
@@ -53,7 +78,7 @@ def queries(tier):
         cname = '_'.join('%d%d' % t for t in toks_)
         for qk, qi, kl in qlist:
             dd = dict(d, QKIND=qk, QIDX=qi, KLEN=kl)
-            qs.append(dict(name='classify_%s_q%d_%d_%d' % (cname, qk, qi, kl), unit='cls', harness='h_classify.c', defs=dd, unwind=7, timeout=600, mem_gb=8, flags=FAST,
+            qs.append(dict(name='classify_%s_q%d_%d_%d' % (cname, qk, qi, kl), unit='cls', harness='h_classify.c', defs=dd, unwind=7, timeout=600, mem_gb=3.5, flags=FAST,
                            tv_runs=60, desc='classification of %d tokens (kind,length) %s; query kind %d index %d key length %d' % (nt, toks_, qk, qi, kl), bounds='token kinds/lengths %s' % (toks_,)))
     # typed getters: (token kind, length) x op x (pos | key length)
     POS_OPS, NAMED_OPS = (0, 1, 6, 8, 10), (2, 3, 4, 5, 7, 9, 11, 12, 13)
@@ -70,10 +95,10 @@ def queries(tier):
         gcells.append((F2S, op, 0, 1)); gcells.append((F2, op, 0, 1))
     for (k, l), op, pos, kl in gcells:
         qs.append(dict(name='get_%d%d_op%d_p%d_k%d' % (k, l, op, pos, kl), unit='cls', harness='h_get.c', defs={'K0': k, 'L0': l, 'OP': op, 'POS': pos, 'KLEN': kl},
-                       unwind=8, unwindset='strlen.0:34,verif_memcpy_loop.0:34,verif_memmove_loop.0:34,verif_memmove_loop.1:34', timeout=900, mem_gb=12 if l >= 5 else 8, flags=FAST, tv_runs=150,
+                       unwind=8, unwindset='strlen.0:34,verif_memcpy_loop.0:34,verif_memmove_loop.0:34,verif_memmove_loop.1:34', timeout=900, mem_gb=7 if l >= 5 else 3.5, flags=FAST, tv_runs=100,
                        desc='getter op %d on one token (kind %d, length %d), pos %d / symbolic key of %d bytes, then assert_none_unused' % (op, k, l, pos, kl),
                        bounds='one token of kind/length (%d,%d)' % (k, l)))
     for l in (0, 1, 2):
-        qs.append(dict(name='unused_list%d' % l, unit='cls', harness='h_unused.c', defs={'LIST': l}, unwind=28, timeout=900, mem_gb=8, flags=FAST, tv_runs=300,
+        qs.append(dict(name='unused_list%d' % l, unit='cls', harness='h_unused.c', defs={'LIST': l}, unwind=28, timeout=900, mem_gb=3.5, flags=FAST, tv_runs=300,
                        desc='assert_none_unused after a symbolic subset of getters on fixed command line %d' % l, bounds='fixed command line, all subsets of getters'))
     return qs
